@@ -287,6 +287,11 @@ class Check:
             s["nontrivial"] for s in self.search.values()
         )
         violation = bool(self.failing_inputs) or bool(self.broken)
+        # vacuity guard: an oracle all of whose cases compared zero with zero has decided nothing
+        vacuous = sorted(k for k, s in self.search.items() if s["cases"] > 0 and s["nontrivial"] == 0)
+        if vacuous:
+            self.notes.append("VACUOUS search oracles in this run (every case trivial): " + ", ".join(vacuous))
+            print(f"WARNING property={self.pid} vacuous oracles: {', '.join(vacuous)}", file=sys.stderr)
         cov = dict(
             obligations=max(n_ob, 0),
             discharged=n_ok,
